@@ -330,8 +330,17 @@ func c12Pairs(c *Ctx, nps *ssa.Function, pidIdx, lostIdx int) {
 				if x.Op != token.MUL {
 					continue
 				}
-				if ia, ok := x.X.(*ssa.IndexAddr); ok && ia.X == ssa.Value(nps.Params[0]) {
-					if _, isPhi := ia.Index.(*ssa.Phi); isPhi {
+				if ia, ok := x.X.(*ssa.IndexAddr); ok {
+					// an element of the input list: the parameter itself or a re-slice of it, any index
+					base := ia.X
+					for {
+						sl, isSl := base.(*ssa.Slice)
+						if !isSl {
+							break
+						}
+						base = sl.X
+					}
+					if base == ssa.Value(nps.Params[0]) {
 						elems = append(elems, x)
 					}
 				}
